@@ -227,4 +227,305 @@ theorem ack_without_connection_witness :
   simp at hm
   omega
 
+
+/-! ### (iv) outgoing numbers -/
+
+/-- Numbers of the T_Data_Connected telegrams sent to the peer, in order. -/
+def dataNumbers : List Obs → List Nat
+  | [] => []
+  | .txData _ n _ :: os => n :: dataNumbers os
+  | _ :: os => dataNumbers os
+
+/-- `Numbered k rep ns`: `ns` continues a connection whose next fresh number is `k mod 16`; each
+telegram carries the next fresh number, or — at most once, directly after the first transmission —
+repeats the number `rep` of the telegram before it. -/
+def Numbered : Nat → Option Nat → List Nat → Prop
+  | _, _, [] => True
+  | k, rep, n :: ns => (n = k % 16 ∧ Numbered (k + 1) (some n) ns) ∨ (rep = some n ∧ Numbered k none ns)
+
+private theorem Numbered.weaken {k : Nat} {rep : Option Nat} {ns : List Nat} (h : Numbered k none ns) :
+    Numbered k rep ns := by
+  cases ns with
+  | nil => trivial
+  | cons n ns =>
+    rcases h with h | h
+    · exact Or.inl h
+    · simp at h
+
+/-- No connection is opened or closed within these observations. -/
+def SameConnection (obs : List Obs) : Prop :=
+  ∀ o ∈ obs, (∀ t b, o ≠ .opened t b) ∧ (∀ t r, o ≠ .closed t r)
+
+private theorem numbered_from : ∀ (obs : List Obs) (s s' : St) (c : Conn) (k : Nat),
+    run? s obs = some s' → s.conn = some c → c.sendSeq = k % 16 → SameConnection obs →
+    Numbered k c.rep (dataNumbers obs) := by
+  intro obs
+  induction obs with
+  | nil => intros; trivial
+  | cons o os ih =>
+    intro s s' c k h hc hk hsame
+    unfold run? at h
+    split at h
+    · rename_i s1 h1
+      obtain ⟨s0, ht, hcore⟩ := step?_eq_some h1
+      obtain ⟨c0, hc0, hs0, hr0⟩ := tick_conn_num ht hc
+      obtain ⟨c1, hc1, hnum⟩ := core_conn_num hcore hc0 (hsame o List.mem_cons_self)
+      have hsame' : SameConnection os := fun o' ho' => hsame o' (List.mem_cons_of_mem _ ho')
+      cases o
+      case txData t n a =>
+        simp only [dataNumbers]
+        simp only at hnum
+        rcases hnum with ⟨h1, h2, h3⟩ | ⟨h1, h2, h3⟩
+        · left
+          refine ⟨by rw [h1, hs0, hk], ?_⟩
+          have := ih s1 s' c1 (k + 1) h hc1 (by rw [h2, hs0, hk]; unfold nextSeq; omega) hsame'
+          rw [h3] at this; exact this
+        · right
+          have hrep : c.rep = some n := by
+            rcases hr0 with hr0 | hr0
+            · rw [← hr0]; exact h1
+            · rw [hr0] at h1; simp at h1
+          refine ⟨hrep, ?_⟩
+          have := ih s1 s' c1 k h hc1 (by rw [h2, hs0, hk]) hsame'
+          rw [h3] at this; exact this
+      all_goals
+        simp only [dataNumbers]
+        simp only at hnum
+        have := ih s1 s' c1 k h hc1 (by rw [hnum.1, hs0, hk]) hsame'
+        rcases hnum.2 with hr | hr
+        · rcases hr0 with hr0 | hr0
+          · rw [hr, hr0] at this; exact this
+          · rw [hr, hr0] at this; exact Numbered.weaken this
+        · rw [hr] at this; exact Numbered.weaken this
+    · simp at h
+
+/-- (iv) For the whole life of a connection — from `connect()` on, over any accepted continuation in
+which it is not closed — the data telegrams carry 0, 1, 2, … modulo 16, and the only departure is one
+repetition of a telegram's number directly after its first transmission. -/
+theorem data_numbers_of_connection (rate : Nat) (pre obs : List Obs) (t : Nat) (s : St)
+    (h : run? (St.init rate) (pre ++ .opened t true :: obs) = some s) (hsame : SameConnection obs) :
+    Numbered 0 none (dataNumbers obs) := by
+  obtain ⟨s1, _, h2⟩ := run?_append h
+  unfold run? at h2
+  split at h2
+  · rename_i s2 hstep
+    obtain ⟨s0, _, hcore⟩ := step?_eq_some hstep
+    simp only [core, onOpened] at hcore
+    split at hcore
+    · simp at hcore; subst hcore
+      exact numbered_from obs _ s Conn.fresh 0 h2 rfl rfl hsame
+    · simp_all
+    · simp at hcore
+  · simp at h2
+
+/-- … and the numbers are what the code's generator yields (regenerated table). -/
+theorem sequence_generator_matches :
+    Generated.Management.sequenceNumbers = (List.range 34).map (· % 16) ∧
+    (∀ i : Fin 33, Generated.Management.sequenceNumbers[i.val + 1]? =
+      (Generated.Management.sequenceNumbers[i.val]?).map nextSeq) := by
+  exact ⟨by decide, by decide⟩
+
+
+/-! ### (i) what a request returns, and when -/
+
+/-- History invariant: a stored response is a received, in-sequence data frame of the peer; a request in
+flight was started by a `req` observation. -/
+private def HistOk (s : St) (hist : List Obs) : Prop :=
+  ∀ c, s.conn = some c →
+    (∀ fid n a, c.respW = .got fid n a →
+      ∃ t' cn, t' ≤ s.now ∧ Obs.rx t' 0 fid (.data n a) true cn n ∈ hist) ∧
+    (∀ t0 e, c.stage.start = some t0 → c.stage.expect = some e → ∃ a, Obs.req t0 a e ∈ hist)
+
+private theorem HistOk_step (s : St) (hist : List Obs) (o : Obs) (s' : St) (hi : HistOk s hist)
+    (h : step? s o = some s') : HistOk s' (hist ++ [o]) := by
+  intro c' hc'
+  have hnow' := step?_now h
+  have hmono : s.now ≤ s'.now := by
+    obtain ⟨s1, h1, h2⟩ := step?_eq_some h
+    rw [(core_rate h2).2]
+    cases tick_spec h1 with
+    | same => exact Nat.le_refl _
+    | noConn hlt => exact Nat.le_of_lt hlt
+    | conn _ hlt => exact Nat.le_of_lt hlt
+  constructor
+  · intro fid n a hg
+    cases step_respW h hc' with
+    | dead hd => rcases hd with hd | hd | hd <;> rw [hd] at hg <;> simp at hg
+    | keep c hc hk =>
+      obtain ⟨t', cn, ht', hm⟩ := (hi c hc).1 fid n a (by rw [← hk]; exact hg)
+      exact ⟨t', cn, Nat.le_trans ht' hmono, List.mem_append_left _ hm⟩
+    | got c t fid' n' a' cn hc ho hk =>
+      rw [hk] at hg; simp only [RespW.got.injEq] at hg
+      obtain ⟨rfl, rfl, rfl⟩ := hg
+      subst ho
+      exact ⟨t, cn, by rw [hnow']; exact Nat.le_refl _, by simp⟩
+  · intro t0 e hs he
+    rcases step_stage h hc' with hidle | ⟨a, e', ho, hs', he'⟩ | ⟨c, hc, hs', he'⟩
+    · rw [hidle] at hs; simp [Stage.start] at hs
+    · rw [hs'] at hs; rw [he'] at he
+      simp only [Option.some.injEq] at hs he
+      subst hs; subst he
+      exact ⟨a, by rw [← ho]; simp⟩
+    · obtain ⟨a, hm⟩ := (hi c hc).2 t0 e (by rw [← hs']; exact hs) (by rw [← he']; exact he)
+      exact ⟨a, List.mem_append_left _ hm⟩
+
+/-- (i) Every result of a request, on every accepted run: it is the result of a request entered at some
+`t0` with expected response type `e`, it arrives no later than `t0 + 1/rate_limit + 2·ACK_TIMEOUT +
+CONNECTION_TIMEOUT`, it is either a response or one of the three management errors (the `Outcome`
+type), and a response `ok fid n a` is a T_Data_Connected frame received earlier from the peer of this
+connection that carried the connection's expected number `n` at that time and has the expected type. -/
+theorem result_sound (rate : Nat) (pre post : List Obs) (t : Nat) (o : Outcome) (s : St)
+    (h : run? (St.init rate) (pre ++ .res t o :: post) = some s) :
+    ∃ t0 apdu e, Obs.req t0 apdu e ∈ pre ∧ t0 ≤ t ∧ t ≤ t0 + rate + 2 * ACK + CONN ∧
+      ∀ fid n a, o = .ok fid n a →
+        (e = 0 ∨ a = e) ∧ ∃ t' cn, t' ≤ t ∧ Obs.rx t' 0 fid (.data n a) true cn n ∈ pre := by
+  obtain ⟨s1, hpre, hrest⟩ := run?_append h
+  have hwf1 : WF s1 := WF_run hpre
+  have hrate1 : s1.rate = rate := by
+    have := run?_inv (fun s => s.rate = rate) (fun s o s' hi hs => by rw [step?_rate hs]; exact hi) pre _ _ rfl hpre
+    exact this
+  have hh1 : HistOk s1 pre := by
+    have := run?_hist_inv HistOk HistOk_step pre (St.init rate) [] s1
+      (by intro c hc; simp [St.init] at hc) hpre
+    simpa using this
+  unfold run? at hrest
+  split at hrest
+  · rename_i s2 hstep
+    obtain ⟨c, t0, e, hc, hs, he, hok⟩ := step_res hstep
+    obtain ⟨a0, hreq⟩ := (hh1 c hc).2 t0 e hs he
+    -- timing: after `tick` the state is well-formed at instant t
+    obtain ⟨s0, htick, hcore⟩ := step?_eq_some hstep
+    have hwf0 := WF_tick hwf1 htick
+    have hnow0 : s0.now = t := tick_now htick
+    have hrate0 : s0.rate = rate := by rw [tick_rate htick, hrate1]
+    simp only [core] at hcore
+    unfold onRes at hcore
+    split at hcore
+    · simp at hcore
+    · rename_i c0 hc0
+      obtain ⟨c', hc', hs', _, _, _⟩ := tick_conn_back htick hc0
+      rw [hc] at hc'; simp only [Option.some.injEq] at hc'; subst hc'
+      have hb := connOk_bound (hwf0 c0 hc0) (by rw [hs', hs])
+      rw [hnow0, hrate0] at hb
+      refine ⟨t0, a0, e, hreq, hb.1, hb.2, ?_⟩
+      intro fid n a ho
+      obtain ⟨hg, hty⟩ := hok fid n a ho
+      obtain ⟨t', cn, ht', hm⟩ := (hh1 c hc).1 fid n a hg
+      refine ⟨?_, t', cn, ?_, hm⟩
+      · simpa [typeOk] using hty
+      · have : s1.now ≤ t := by
+          rw [← hnow0]
+          cases tick_spec htick with
+          | same => exact Nat.le_refl _
+          | noConn hlt => exact Nat.le_of_lt hlt
+          | conn _ hlt => exact Nat.le_of_lt hlt
+        omega
+  · simp at hrest
+
+/-- Requests entered / finished. -/
+def reqCount : List Obs → Nat
+  | [] => 0
+  | .req _ _ _ :: os => reqCount os + 1
+  | _ :: os => reqCount os
+
+def resCount : List Obs → Nat
+  | [] => 0
+  | .res _ _ :: os => resCount os + 1
+  | _ :: os => resCount os
+
+private theorem count_inv : ∀ (obs : List Obs) (s s' : St), run? s obs = some s' →
+    reqCount obs + (if s.idle then 0 else 1) = resCount obs + (if s'.idle then 0 else 1) := by
+  intro obs
+  induction obs with
+  | nil => intro s s' h; simp [run?] at h; subst h; simp [reqCount, resCount]
+  | cons o os ih =>
+    intro s s' h
+    unfold run? at h
+    split at h
+    · rename_i s1 h1
+      have hrest := ih s1 s' h
+      -- one step
+      have hone : (match o with | .req _ _ _ => 1 | _ => 0) + (if s.idle then 0 else 1)
+          = (match o with | .res _ _ => 1 | _ => 0) + (if s1.idle then 0 else 1) := by
+        obtain ⟨s0, htick, hcore⟩ := step?_eq_some h1
+        have hidle0 : s0.idle = s.idle := by
+          unfold St.idle
+          cases hc0 : s0.conn with
+          | none =>
+            cases tick_spec htick with
+            | same => rw [hc0]
+            | noConn _ _ hn => rw [hn]
+            | conn c _ _ hc => simp at hc0
+          | some c0 =>
+            obtain ⟨c, hc, hs, _, _, _⟩ := tick_conn_back htick hc0
+            rw [hc]; simp only
+            cases hst : c.stage <;> cases hst0 : c0.stage <;> simp [hst, hst0, Stage.start] at hs ⊢
+        rw [← hidle0]
+        cases o <;> simp only [core] at hcore
+        case opened t ok =>
+          unfold onOpened at hcore; split at hcore <;> simp at hcore <;> subst hcore <;>
+            simp_all [St.idle, Conn.fresh]
+        case closed t r =>
+          unfold onClosed at hcore; split at hcore <;> split at hcore <;> simp at hcore <;> subst hcore <;>
+            simp_all [St.idle]
+        case req t a e =>
+          unfold onReq at hcore; split at hcore <;> (try split at hcore) <;> simp at hcore; subst hcore
+          simp_all [St.idle]
+        case res t o =>
+          unfold onRes at hcore; split at hcore <;> (try split at hcore) <;> (try split at hcore) <;> simp at hcore
+          subst hcore
+          rename_i c hc _ o' c1 hres _
+          obtain ⟨r1, _, _, _, _, _, t0, e, hs, _, _⟩ := result_spec hres
+          have : c.stage ≠ .idle := by intro hi; rw [hi] at hs; simp [Stage.start] at hs
+          simp [St.idle, hc, r1, this]
+        case txData t n a =>
+          unfold onTxData at hcore
+          split at hcore <;> (try split at hcore) <;> (try split at hcore) <;> simp at hcore <;> subst hcore <;>
+            simp_all [St.idle]
+        case txAck t d n => unfold onTx at hcore; split at hcore <;> simp at hcore; subst hcore; rfl
+        case txDisc t d => unfold onTx at hcore; split at hcore <;> simp at hcore; subst hcore; rfl
+        case rx t src fid f hcn cn e =>
+          unfold onRx at hcore; split at hcore <;> (try split at hcore) <;> simp at hcore; subst hcore
+          rename_i _ _ conn' outs hp
+          rcases mgmtProcess_conn hp with hsame | ⟨c0, c1, _, hc0, hpr, hres⟩
+          · simp only at hsame; subst hsame; rfl
+          · simp only at hres; simp [St.idle, hres, hc0, (process_fields hpr).1]
+        case fin t => unfold onFin at hcore; split at hcore <;> simp at hcore; subst hcore; simp
+      cases o <;> simp only [reqCount, resCount] at hone ⊢ <;> omega
+    · simp at h
+
+/-- (i, liveness part) On an accepted complete run (it ends with `fin`, which the harness emits only
+after every request task has returned) every request got a result: requests and results balance. -/
+theorem every_request_finishes (rate : Nat) (obs : List Obs) (t : Nat) (s : St)
+    (h : run? (St.init rate) (obs ++ [.fin t]) = some s) : reqCount obs = resCount obs := by
+  obtain ⟨s1, hpre, hrest⟩ := run?_append h
+  have hc := count_inv obs _ _ hpre
+  have hidle : s1.idle = true := by
+    unfold run? at hrest
+    split at hrest
+    · rename_i s2 hstep
+      obtain ⟨s0, htick, hcore⟩ := step?_eq_some hstep
+      simp only [core, onFin] at hcore
+      split at hcore
+      · rename_i hf
+        have h0 : s0.idle = true := hf.2
+        -- idle is not changed by tick
+        unfold St.idle at h0 ⊢
+        cases hc0 : s0.conn with
+        | none =>
+          cases tick_spec htick with
+          | same => rw [hc0]
+          | noConn _ _ hn => rw [hn]
+          | conn c _ _ hc => simp at hc0
+        | some c0 =>
+          obtain ⟨c, hc, hs, _, _, _⟩ := tick_conn_back htick hc0
+          rw [hc0] at h0; simp only [decide_eq_true_eq] at h0
+          rw [hc]; simp only [decide_eq_true_eq]
+          rw [h0] at hs
+          cases hst : c.stage <;> simp [hst, Stage.start] at hs ⊢
+      · simp at hcore
+    · simp at hrest
+  rw [hidle] at hc
+  simpa [St.init, St.idle] using hc
+
 end XknxVerif.Props.C43
